@@ -269,6 +269,7 @@ type call struct {
 	startPresent bool
 	endPresent   bool
 	endExact     bool
+	mismatch     string
 	err          error
 	done         chan struct{}
 }
@@ -294,6 +295,7 @@ type caseRun struct {
 	stores     map[int][]window                       // windows in which blob b was moved to the cache
 	stale      map[int][]int64                        // stamps at which a stale completion notice hit a newer control
 	droppers   map[int]string                         // blob -> first event which removed a complete control that still had waiters
+	cancelled  map[int]string                         // blob -> first event which cancelled an in-progress download of it
 	atShutdown map[int]scheduler.VerifC17TorrentState // control state when shutdownEvent was applied
 	pre        map[int]scheduler.VerifC17TorrentState
 
@@ -349,6 +351,7 @@ func (cr *caseRun) setup() error {
 	cr.stores = map[int][]window{}
 	cr.stale = map[int][]int64{}
 	cr.droppers = map[int]string{}
+	cr.cancelled = map[int]string{}
 	cr.atShutdown = map[int]scheduler.VerifC17TorrentState{}
 	cr.pre = map[int]scheduler.VerifC17TorrentState{}
 	cr.closedOnce = map[int]bool{}
@@ -396,6 +399,14 @@ func (cr *caseRun) setup() error {
 	cr.gate.AfterApply = func(info scheduler.VerifC17EventInfo, v scheduler.VerifC17View) {
 		for i, b := range cr.blobs {
 			pre, post := cr.pre[i], v.Torrent(b.InfoHash())
+			if pre.Present && !pre.Complete && (!post.Present || post.Ref != pre.Ref) {
+				cr.mu.Lock()
+				if _, seen := cr.cancelled[i]; !seen {
+					cr.cancelled[i] = info.Name
+				}
+				cr.mu.Unlock()
+				cr.run.Count("inprogress_download_cancelled_by_"+info.Name, 1)
+			}
 			if pre.Present && pre.Complete && pre.Waiters > 0 && (!post.Present || post.Ref != pre.Ref) {
 				cr.mu.Lock()
 				if _, seen := cr.droppers[i]; !seen {
@@ -1111,8 +1122,21 @@ early:
 				"what": "Download returned nil but the blob was not in the cache at any instant of the call",
 			})
 		} else if c.endPresent && !c.endExact {
-			cr.run.Violation("success-with-wrong-bytes", cr.spec.key(), map[string]interface{}{
-				"case": cr.spec, "executed": cr.executed, "call": c.id, "blob": c.b})
+			// Was an in-progress download of this blob cancelled (removal or idle
+			// timeout) earlier in the case? Then a piece write of the cancelled
+			// torrent instance may have hit the re-created download file.
+			sig := "success-with-wrong-bytes/other"
+			cr.mu.Lock()
+			if by, ok := cr.cancelled[c.b]; ok {
+				sig = "success-with-wrong-bytes/after-cancelled-download-and-new-request"
+				_ = by
+			}
+			cancelledBy := cr.cancelled[c.b]
+			cr.mu.Unlock()
+			cr.run.Violation(sig, cr.spec.key(), map[string]interface{}{
+				"case": cr.spec, "executed": cr.executed, "applied_event_order": cr.order(), "call": c.id,
+				"call_started_at_step": c.step, "blob": c.b, "cache_content": c.mismatch, "inprogress_download_cancelled_by": cancelledBy,
+				"what": "Download returned nil and the cache holds a file under the blob's digest whose content is not the blob"})
 		}
 	}
 }
@@ -1138,7 +1162,7 @@ func (cr *caseRun) launch(stepIdx, b int) *call {
 		c.err = cr.L.Sched.Download(rig.Namespace, blob.Digest)
 		if b >= 0 {
 			st := cr.L.Stat(blob, c.err == nil)
-			c.endPresent, c.endExact = st.InCache, !st.Mismatch
+			c.endPresent, c.endExact, c.mismatch = st.InCache, !st.Mismatch, st.MismatchInfo
 		}
 		c.endStamp = cr.next()
 		close(c.done)
@@ -1147,7 +1171,7 @@ func (cr *caseRun) launch(stepIdx, b int) *call {
 }
 
 func stress(t *testing.T, run *ev.Run, base string) {
-	rounds := run.N(0, 300)
+	rounds := run.N(0, 150)
 	const workers = 8
 	var wg sync.WaitGroup
 	for wi := 0; wi < workers; wi++ {
@@ -1247,7 +1271,7 @@ func TestC17(t *testing.T) {
 	run.Assume("the in-process seeder, the stub tracker (static handout + metainfo) and the mock clock behave as their real counterparts")
 	run.Assume("holding the send of an event before it reaches the unbuffered loop channel is a schedule the Go runtime may produce")
 
-	n := run.N(160, 4000)
+	n := run.N(160, 2000)
 	gr := run.Rand("schedules")
 	specs := make([]*caseSpec, n)
 	for i := range specs {
